@@ -36,7 +36,8 @@ Methods == {"GET", "HEAD", "POST", "get", "Head", "PUT"}
 Statuses == {200, 404, 500}
 
 (* a case: cc = sequence of header lines, each a sequence of directives; sp = spacing style *)
-Case(cc, sp, cookie, age, m, st) == [cc |-> cc, sp |-> sp, cookie |-> cookie, age |-> age, m |-> m, status |-> st]
+(* fault: "reset" -- the origin receives the first request and breaks the connection instead of answering *)
+Case(cc, sp, cookie, age, m, st) == [cc |-> cc, sp |-> sp, cookie |-> cookie, age |-> age, m |-> m, status |-> st, fault |-> "none"]
 
 Flat(cc) == IF cc = <<>> THEN <<>> ELSE IF Len(cc) = 1 THEN cc[1] ELSE cc[1] \o cc[2]
 DSet(cc) == {Flat(cc)[i] : i \in DOMAIN Flat(cc)}
@@ -94,6 +95,7 @@ CasesSmall ==
   \cup {Case(cc, "tight", ck, ag, m, st) : cc \in {Good, GoodS, << <<[n |-> "max-age", c |-> "lower", a |-> "1"]>> >>},
                                            ck \in Cookies, ag \in Ages, m \in Methods, st \in Statuses}
   \cup {Case(cc, "tight", "none", ag, "GET", 200) : cc \in {<< <<a>> >> : a \in {d \in Dirs : d.n \in {"max-age", "s-maxage"}}}, ag \in Ages}
+CasesFault == {[Case(cc, "tight", "none", "absent", m, 200) EXCEPT !.fault = "reset"] : cc \in {Good, <<>>}, m \in Methods}
 CasesBig == {Case(cc, "tight", "none", "absent", "GET", 200) : cc \in Lines3}
 
 WithOracle(c) == c @@ [probes |-> Probes(c), mayStore |-> MayStore(c), lifetimes |-> Lts(c)]
@@ -103,7 +105,7 @@ VARIABLE l
 
 EmitInit ==
   /\ l = 0
-  /\ LET S == IF IOEnv.TIER = "thorough" THEN CasesSmall \cup CasesBig ELSE CasesSmall
+  /\ LET S == IF IOEnv.TIER = "thorough" THEN CasesSmall \cup CasesFault \cup CasesBig ELSE CasesSmall \cup CasesFault
          Q == SetToSeq(S)
      IN ndJsonSerialize(IOEnv.OUT, [i \in 1..Len(Q) |-> WithOracle(Q[i])])
 EmitNext == FALSE /\ l' = l
@@ -128,10 +130,12 @@ Ok(o) ==
           /\ MayStore(c)
           /\ \E L \in Lts(c) : hits = PatternOf(L, asked)
      /\ o.first.contacts = 1
-     /\ o.first.label = (IF c.m \in {"GET", "HEAD"} THEN "fetching" ELSE "passed")
+     /\ c.fault = "none" => o.first.label = (IF c.m \in {"GET", "HEAD"} THEN "fetching" ELSE "passed")
      /\ o.stored => (o.second.label = "hit" /\ o.second.contacts = 0 /\ o.second.sameVersion)
      /\ ~o.stored => (o.second.contacts = 1 /\ ~o.second.sameVersion /\ o.second.label # "hit")
      /\ (c.m \notin {"GET", "HEAD"}) => (~o.stored /\ o.second.label = "passed")
+     (* a request whose forwarding failed was forwarded once, and its client is told so (no silent second attempt) *)
+     /\ c.fault = "reset" => (o.first.status >= 400 /\ ~o.stored)
 
 CheckInit == l = 0
 CheckNext == l < Len(Obs) /\ l' = l + 1
